@@ -7,6 +7,7 @@ package main
 
 import (
 	"fmt"
+	"math"
 	"math/rand"
 	"os"
 	"strconv"
@@ -231,5 +232,94 @@ func selfTestMain(args []string) int {
 		s, _ := strconv.Atoi(v)
 		seed = int64(s)
 	}
-	return selfTest(n, seed)
+	rc := selfTest(n, seed)
+	if r := selfTestFP(n/4, seed); r != 0 {
+		rc = r
+	}
+	return rc
+}
+
+// selfTestFP checks the concrete evaluator of the floating-point operations
+// (used for constant folding and for evaluating models) against the solver's
+// FloatingPoint theory on random and special bit patterns. Results that are
+// NaN are compared as "is NaN" only: the payload is not defined by IEEE 754.
+func selfTestFP(n int, seed int64) int {
+	rng := rand.New(rand.NewSource(seed))
+	tt := NewTermTable()
+	rb := rawBuilder{tt}
+	sv := NewSolver(SolverZ3New, 20000)
+	defer sv.Close()
+	special64 := []uint64{0, 1 << 63, 0x3FF0000000000000, 0xBFF0000000000000, 0x7FF0000000000000, 0xFFF0000000000000, 0x7FF8000000000001,
+		0x43E0000000000000, 0xC3E0000000000000, 0x41E0000000000000, 0xC1E0000000000000, 0xC1E0000000200000, 0x4330000000000001, 1, 0x000FFFFFFFFFFFFF, 0x41CDCD6500000000}
+	pick := func(w int) uint64 {
+		if w == 64 {
+			switch rng.Intn(3) {
+			case 0:
+				return special64[rng.Intn(len(special64))]
+			case 1:
+				return math.Float64bits(float64(rng.Int63n(1<<40)-1<<39) / float64(int64(1)<<uint(rng.Intn(40))))
+			}
+			return rng.Uint64()
+		}
+		if rng.Intn(2) == 0 {
+			return uint64(math.Float32bits(float32(rng.Intn(1<<20)-1<<19) / float32(int(1)<<uint(rng.Intn(16)))))
+		}
+		return uint64(rng.Uint32())
+	}
+	bad := 0
+	for i := 0; i < n; i++ {
+		kind := rng.Intn(fpToFP + 1)
+		w := 32 + 32*rng.Intn(2)
+		var args []*Term
+		rw := w
+		switch kind {
+		case fpAdd, fpSub, fpMul, fpDiv:
+			args = []*Term{tt.Const(w, pick(w)), tt.Const(w, pick(w))}
+		case fpLt, fpLe, fpEq:
+			args = []*Term{tt.Const(w, pick(w)), tt.Const(w, pick(w))}
+			rw = 0
+		case fpFromS, fpFromU:
+			iw := []int{8, 16, 32, 64}[rng.Intn(4)]
+			v := rng.Uint64() >> uint(rng.Intn(64))
+			if rng.Intn(2) == 0 {
+				v = -v
+			}
+			args = []*Term{tt.Const(iw, v&mask(iw))}
+		case fpToS:
+			args = []*Term{tt.Const(w, pick(w))}
+			rw = 32 + 32*rng.Intn(2)
+		case fpToFP:
+			args = []*Term{tt.Const(w, pick(w))}
+			rw = 96 - w
+		}
+		vals := make([]uint64, len(args))
+		for k, a := range args {
+			vals[k] = a.Val
+		}
+		got := evalFP(kind, rw, args[0].W, vals)
+		if os.Getenv("VERIF_SELFTEST_BREAK") != "" && i%50 == 7 {
+			got ^= 1 // deliberately wrong: the self-test must notice
+		}
+		raw := &Term{Op: OpFP, W: rw, Hi: kind, Args: args}
+		tt.nextID++
+		raw.ID = tt.nextID
+		p := NewSMTPrinter()
+		isFloat := kind <= fpDiv || kind == fpFromS || kind == fpFromU || kind == fpToFP
+		if isFloat && bitsToF(rw, got) != bitsToF(rw, got) {
+			// NaN expected: the solver's value must be a NaN too
+			ref := p.Ref(raw)
+			fmt.Fprintf(&p.sb, "(assert (not (fp.isNaN %s)))\n", fpOf(rw, ref))
+		} else {
+			p.Assert(rb.mk(OpNot, 0, rb.mk(OpEq, 0, raw, tt.Const(rw, got))))
+		}
+		if res, _, note := sv.Check(p.String(), nil); res != Unsat {
+			bad++
+			fmt.Printf("FP EVAL MISMATCH #%d (%s %s): %s %v -> evaluator %#x\n", i, res, note, fpNames[kind], vals, got)
+		}
+	}
+	fmt.Printf("selftest: %d floating-point operations, %d evaluator mismatches\n", n, bad)
+	if bad > 0 {
+		return 1
+	}
+	return 0
 }
